@@ -101,6 +101,12 @@ def run_case(case):
     def fail(kind, name, d):
         res["failures"].append({"sig": f"C20|{kind}|{name}|protocol={proto}", "what": f"{kind}: fixture dataset {name} with pickle protocol {proto}", "detail": d, "case": ("proto", proto)})
 
+    def plain_behaviour(ds):
+        return [[outcome(lambda: ds.evaluate(copy.deepcopy(o))), outcome(lambda: sorted(ds.keys(copy.deepcopy(o))))] for o in dicts()]
+
+    # every original is observed BEFORE anything is pickled in this process: a round trip of one
+    # dataset must not change the behaviour of any other object either
+    baseline = {name: plain_behaviour(getattr(mod, name)) for name in mod.EXPLICIT + mod.DECORATOR}
     tmp = tempfile.mkdtemp(prefix="labmc-c20-")
     try:
         index = []
@@ -127,7 +133,10 @@ def run_case(case):
             # the original's behaviour is taken from a second, independent copy so that the late
             # registration performed on it does not touch the module-level fixture
             reference = pickle.loads(pickle.dumps(ds, protocol=pickle.HIGHEST_PROTOCOL))
-            orig_plain = [[outcome(lambda: ds.evaluate(copy.deepcopy(o))), outcome(lambda: sorted(ds.keys(copy.deepcopy(o))))] for o in dicts()]
+            orig_plain = baseline[name]
+            now = plain_behaviour(ds)
+            if now != orig_plain:
+                fail("an-earlier-round-trip-changed-this-original", name, _diff(orig_plain, now))
             want = behaviour(reference, can_register)
             if not can_register:
                 # refusing overloads does not modify the dataset, so the ORIGINAL can be asked directly
@@ -154,6 +163,10 @@ def run_case(case):
             with open(os.path.join(tmp, name + ".pkl"), "wb") as f:
                 f.write(blob)
             index.append([name, can_register])
+        for name in mod.EXPLICIT:
+            now = plain_behaviour(getattr(mod, name))
+            if now != baseline[name]:
+                fail("round-trips-changed-an-original", name, _diff(baseline[name], now))
         with open(os.path.join(tmp, "index.json"), "w") as f:
             json.dump(index, f)
         # fresh interpreter
